@@ -128,6 +128,26 @@ class ExprMixin(object):
                 FA([x], STR_STRIP(STR_STRIP(x)) == STR_STRIP(x), patterns=[STR_STRIP(STR_STRIP(x))]),
             ]
 
+    def path_idx(self, a, i):
+        f = ufun('u_path_idx', PStr, z3.IntSort(), PStr)
+        inv = ufun('u_path_idx_inv', PStr, z3.IntSort())
+        if 'path_idx' not in self.axioms_used:
+            self.axioms_used.add('path_idx')
+            x = z3.Const('ax_p', PStr)
+            m = z3.Int('ax_i')
+            self.global_axioms += [
+                # injective in the index (through a left inverse: linear instantiation), never the base
+                FA([x, m], z3.And(inv(f(x, m)) == m, f(x, m) != x), patterns=[f(x, m)]),
+            ]
+        return f(a, i)
+
+    def path_cat(self, a, lit):
+        """path + '<literal>'; T-STDLIB: p + '.1' == '%s.%d' % (p, 1)"""
+        if lit == '.1':
+            return self.path_idx(a, z3.IntVal(1))
+        f = ufun('u_path_cat_' + ''.join(c if c.isalnum() else '_' for c in lit), PStr, PStr)
+        return f(a)
+
     def str_lower(self, z):
         if z3.is_string_value(z):
             return z3.StringVal(z.as_string().lower())
@@ -422,6 +442,8 @@ class ExprMixin(object):
         if a.ty in num and b.ty in num:
             return self.arith(st, op, a, b, node)
         if isinstance(op, ast.Add):
+            if a.ty == PATH and b.ty == STR and z3.is_string_value(b.z):
+                return self.ok(st, SV(PATH, self.path_cat(a.z, b.z.as_string())))
             if a.ty == STR and b.ty == STR:
                 return self.ok(st, SV(STR, z3.Concat(a.z, b.z)))
             if a.ty == BYTES and b.ty == BYTES:
@@ -514,6 +536,10 @@ class ExprMixin(object):
     def percent_format(self, st, fmt, args, node):
         """'%s.%s' % (a, b): exact when the format is a literal using only %s/%d/%i with str/int
         arguments, otherwise an unconstrained fresh string"""
+        if z3.is_string_value(fmt.z) and fmt.z.as_string() == '%s.%d' and isinstance(args.ty, TTuple) \
+                and args.py is not None and len(args.py) == 2 and args.py[0].ty == PATH and args.py[1].ty == INT:
+            # T-STDLIB: '%s.%d' % (a, i) -- numbered path; injective in i and never equal to a
+            return SV(PATH, self.path_idx(args.py[0].z, args.py[1].z))
         if z3.is_string_value(fmt.z):
             f = fmt.z.as_string()
             items = list(args.py) if isinstance(args.ty, TTuple) and args.py is not None else [args]
